@@ -7,6 +7,8 @@ import (
 	"reflect"
 	"regexp"
 	"strings"
+	"sync/atomic"
+	"time"
 
 	"verif/harness/hx"
 )
@@ -21,7 +23,13 @@ type OLevel int
 
 var levelNames = []string{"", "debug", "info", "warn", "error"}
 
+// slowText makes UnmarshalText of the corpus's types take a while (set during concurrent first binds)
+var slowText atomic.Bool
+
 func (l *OLevel) UnmarshalText(b []byte) error {
+	if slowText.Load() {
+		time.Sleep(300 * time.Microsecond)
+	}
 	s := strings.ToLower(string(b))
 	for i := 1; i < len(levelNames); i++ {
 		if s == levelNames[i] {
@@ -36,6 +44,9 @@ func (l *OLevel) UnmarshalText(b []byte) error {
 type OColor string
 
 func (c *OColor) UnmarshalText(b []byte) error {
+	if slowText.Load() {
+		time.Sleep(300 * time.Microsecond)
+	}
 	s := strings.ToLower(string(b))
 	switch s {
 	case "red":
